@@ -85,7 +85,9 @@ URL_IN_TEXT_RE = re.compile(
 
 # NOTE: we allow the a tag not to be closed because some browsers do and
 # also for performance reasons.
-URL_IN_HTML = r"""<a[^>]*\shref=(?:"([^"]*)"|'([^']*)'|([^\s>]*))[^>]*>"""
+# NOTE: the name of the tag ends right after the "a" ("<abbr href=...>" or
+# "<article href=...>" are no links; "<area href=...>" is one)
+URL_IN_HTML = r"""<a(?:rea)?(?:\s[^>]*)?\shref=(?:"([^"]*)"|'([^']*)'|([^\s>]*))[^>]*>"""
 URL_IN_HTML_BINARY = URL_IN_HTML.encode()
 
 # NOTE: the str patterns must be ASCII-only like their bytes twins, else \s, \b
